@@ -22,10 +22,34 @@
 #define VP_LOCKS_OFF 1
 #include "vp.h"
 #include "log_stub.h"
+#ifdef C36_LITERAL_ALLOC
+/* request_new allocates sizeof(struct request) + evdns_request_len(): symbolic in name_len and
+ * EDNS.  A symbolic malloc size does not fit in memory (DESIGN 3.3), so for harness_request_new
+ * the allocator hands out literal-size objects (request <= size asserted); the exact-size check
+ * of the query bytes is harness_build's. */
+#define VP_HAVE_EVENT_C 1
+#endif
 #include "alloc.h"
 #include "locks.h"
 #include "dns_env.h"
 #include "evdns.c"
+#ifndef C36_N
+#define C36_N 8
+#endif
+#ifdef C36_LITERAL_ALLOC
+/* one typed object: header struct + payload array (a flat byte object would turn every header
+ * field access into a byte_update over the whole array: 6M variables at N=4) */
+struct c36_reqobj { struct request hdr; u8 payload[96 + C36_N + 2 + 4 + 11]; };
+void *event_mm_malloc_(size_t sz)
+{
+	void *p;
+	VP_ASSERT(sz <= sizeof(struct c36_reqobj), "harness: allocation larger than the request object");
+	p = malloc(sizeof(struct c36_reqobj));
+	__CPROVER_assume(p != NULL);
+	return p;
+}
+void event_mm_free_(void *p) { free(p); }
+#endif
 #ifndef C36_N
 #define C36_N 8
 #endif
@@ -121,13 +145,20 @@ static void c36_run(struct evdns_base *base, const char *name, int name_len)
 	if (rlen < 0) {
 		if (!is_dot)
 			VP_ASSERT(!encodable, "C36: encodable name rejected by evdns_request_data_build");
+#ifndef C36_ONLY_WELLFORMED
 		if (!encodable) VP_WITNESS("unencodable name refused");
+#endif
 		return;
 	}
 	VP_ASSERT((size_t)rlen <= need_len, "C36: query longer than its buffer");
 	if (!is_dot) {
 		VP_ASSERT(encodable, "C36: unencodable name (empty label: leading/consecutive dots; label > 63; wire form > 255 octets) was encoded and would be transmitted malformed");
 		if (!encodable) return;
+	} else {
+		/* "." may be refused or sent as the root name, nothing else */
+		int root_len = 12 + 1 + 4 + (edns ? 11 : 0);
+		VP_ASSERT(rlen == root_len, "C36: the name \".\" is transmitted malformed (a second zero octet follows the root name)");
+		if (rlen != root_len) return;
 	}
 	c36_check_query(buf, rlen, name, name_len, id, type, klass, edns, base->global_max_udp_size, 0);
 	if (edns) VP_WITNESS("EDNS query built");
@@ -179,4 +210,55 @@ void harness_long(void)
 		name[p] = c;
 	}
 	c36_run(base, name, n);
+}
+
+/* request_new() on a constructed base: 0x20 randomisation with solver-chosen random bits,
+ * transaction id from the (solver-chosen) RNG, type as requested, class IN. */
+void harness_request_new(void)
+{
+	struct evdns_base *base = calloc(1, sizeof(*base));
+	char *name = malloc(C36_N + 1);
+	struct request *req;
+	int name_len, encodable, edns, issuing, type, i, flips = 0;
+	__CPROVER_assume(base && name);
+	base->n_req_heads = 1;
+	base->req_heads = calloc(1, sizeof(struct request *));
+	__CPROVER_assume(base->req_heads);
+	issuing = vp_bool();
+	vp_dns_rng_fair_ids = 1;
+	base->global_max_requests_inflight = issuing ? 1 : 0; /* nothing inflight: issue now iff allowed */
+	base->global_randomize_case = vp_bool();
+	base->global_max_udp_size = vp_u16();
+	edns = base->global_max_udp_size > 512;
+	type = vp_u8();
+	vp_bytes(name, C36_N);
+	name[C36_N] = 0;
+	name_len = (int)strlen(name);
+	encodable = dnsref_name_encodable(name, name_len);
+#ifdef C36_ONLY_WELLFORMED
+	__CPROVER_assume(encodable);
+#endif
+
+	req = request_new(base, NULL, type, name, vp_int());
+
+	if (!req) {
+		VP_ASSERT(!encodable, "C36: request_new failed for an encodable name (allocation cannot fail here)");
+#ifndef C36_ONLY_WELLFORMED
+		VP_WITNESS("request_new refused the name");
+#endif
+		return;
+	}
+	VP_ASSERT(encodable || (name_len == 1 && name[0] == '.'), "C36: request_new built a request for an unencodable name");
+	if (!encodable) return;
+	VP_ASSERT(req->request == (u8 *)req + sizeof(struct request) && req->request_appended, "C36: request bytes follow the header");
+	VP_ASSERT(req->request_len <= evdns_request_len(base, (size_t)name_len), "C36: request_len beyond the allocation");
+	VP_ASSERT(req->request_type == type, "C36: request_type");
+	VP_ASSERT(issuing ? req->trans_id != 0xffff : req->trans_id == 0xffff, "C36: transaction id 0xffff iff the request is not issued now");
+	c36_check_query(req->request, (int)req->request_len, name, name_len, req->trans_id, (unsigned)type, 1 /* IN */,
+	    edns, base->global_max_udp_size, base->global_randomize_case);
+	for (i = 0; i < name_len; i++) if (req->request[13 + i] != (u8)name[i]) flips++;
+	if (base->global_randomize_case && flips > 0) VP_WITNESS("0x20: case of a letter changed on the wire");
+	if (!base->global_randomize_case) VP_WITNESS("request built without 0x20");
+	if (!issuing) VP_WITNESS("request built for the waiting queue");
+	mm_free(req);
 }
